@@ -24,8 +24,8 @@ ASSUMPTIONS = [
     "crash-freedom over all argv/stdin byte strings (pure parser inputs) is sampled only incidentally; that part of C15 is not claimed",
 ]
 TIERS = {
-    "quick": {"cases": 2200, "flavours": ("asan",), "cap_s": 600},
-    "thorough": {"cases": 120000, "flavours": ("asan", "plain"), "cap_s": 4 * 3600},
+    "quick": {"cases": 25000, "flavours": ("asan",), "cap_s": 600},
+    "thorough": {"cases": 1500000, "flavours": ("asan", "plain"), "cap_s": 4 * 3600},
 }
 SHRINK_LISTS = ["sched", "faults", "stack", "argv"]
 
@@ -441,7 +441,7 @@ def judge(ev, run, scn, flavour="asan"):
     elif kind == "terminate":
         ev.add(PROP, "uncaught-exception", "%s:%s@%s" % (tool, detail.split(":")[0], last_command(run)), "%s: uncaught exception (%s) after `%s`" % (tool, detail[:100], last_command(run)))
     elif kind == "assert":
-        ev.add(PROP, "failed-assertion", "%s:%s" % (tool, detail.split(": ")[0].replace("/repo/", "").split(":")[0] + ":" + (detail.split(": ")[1] if ": " in detail else "")[:40]), "%s: %s" % (tool, detail[:160]))
+        ev.add(PROP, "failed-assertion", "%s:%s" % (tool, detail.split(": ")[0].replace(proto.REPO_ROOT + "/", "").split(":")[0] + ":" + (detail.split(": ")[1] if ": " in detail else "")[:40]), "%s: %s" % (tool, detail[:160]))
     elif kind == "abort":
         ev.add(PROP, "abort", "%s@%s" % (tool, last_command(run)), "%s called abort() after `%s`" % (tool, last_command(run)))
     elif kind == "signal":
